@@ -164,10 +164,14 @@ PROPS["C04"] = {
 
 # ---------------------------------------------------------------- C10
 PROPS["C10"] = {
-    "level_text": 'Basic scheme only: for symbolic user (1..UL bytes without \':\' and \'"\') and password (0..PL printable bytes including \':\') the real Sender -> Authorization.Marshal -> Unmarshal -> Verify chain accepts; any different password or user, or Basic not being enabled, is rejected.',
-    "level_note": 'Outside (not claimed): Digest MD5/SHA-256 (hashes would be uninterpreted functions; not built), URL matching rules, the 401/close behaviour of ServerConn, client retry.',
+    "level_text": "Basic and Digest (MD5, SHA-256) on the real Sender -> Authorization.Marshal -> Unmarshal -> Verify chain with the server's own WWW-Authenticate challenge: symbolic user, password (printable, including ':'), realm and nonce (1-2 bytes each); completeness (right credentials accepted) and soundness (a different password / user / realm / nonce / method, or a scheme that is not enabled, is rejected). Digest hashes are uninterpreted functions assumed collision-free (pairwise axioms over the applications on the path).",
+    "level_note": "Trusted: MD5/SHA-256 collision freedom (the cryptographic assumption). Outside: the URL matching relaxations (URLs are concrete here), the 401-vs-close behaviour of ServerConn, the client's single retry, field lengths above the registered bounds.",
     "runs": [
         R("basic", "pkg/auth", "pkg/auth", ["ZzC10Basic"], flags={"concoff": True}, quick_params={"UL": 2, "PL": 3}, thorough_params={"UL": 3, "PL": 4}),
+        R("digest-md5", "pkg/auth", "pkg/auth", ["ZzC10Digest"], flags={"concoff": True, "qtimeout": 120000, "unwind": 200},
+          quick_params={"UL": 2, "PL": 2, "RL": 1, "NL": 1}, thorough_params={"UL": 2, "PL": 2, "RL": 2, "NL": 2}),
+        R("digest-sha256", "pkg/auth", "pkg/auth", ["ZzC10Digest"], flags={"concoff": True, "qtimeout": 120000, "unwind": 200},
+          quick_params={"SHA256": 1, "UL": 1, "PL": 1, "RL": 1, "NL": 1}, thorough_params={"SHA256": 1, "UL": 2, "PL": 1, "RL": 1, "NL": 1}),
     ],
 }
 
